@@ -81,7 +81,7 @@ func genC06(t *rapid.T) C06Case {
 			case 8:
 				b.WriteString(fmt.Sprintf("%s = [%s, 1]\n", name(i), rapid.SampledFrom([]string{"A", "B", "undefinedGlobal", "$x"}).Draw(t, "item")))
 			case 9:
-				b.WriteString(fmt.Sprintf("%s = %s\n", name(i), rapid.SampledFrom([]string{"1", "'s'", "1.5", "true", "null", "['k': A]", "A + 1", "not B", "'\\uD83D\\uDE00'", "'\\uD83D\\uDE'", "'\\uD83D\\u'", "'\\u12'", "'\\uD83D", "'a\\", "0x", "1e", "[1, ", "f(", "1 if", "true default", "3 log", "(1 print)", "$x in", "1 sp 2", "'a' call 'b'", "[1 case 2]", "f(1 nil)"}).Draw(t, "lit")))
+				b.WriteString(fmt.Sprintf("%s = %s\n", name(i), rapid.SampledFrom([]string{"1", "'s'", "1.5", "true", "null", "['k': A]", "A + 1", "not B", "'\\uD83D\\uDE00'", "'\\uD83D\\uDE'", "'\\uD83D\\u'", "'\\u12'", "'\\uD83D", "'a\\", "0x", "1e", "[1, ", "f(", "1 if", "true default", "3 log", "(1 print)", "$x in", "1 sp 2", "'a' call 'b'", "[1 case 2]", "f(1 nil)", "-٣", "(-１)", "2 * -१", "['a': -٣]", "٣ + 1", "-½"}).Draw(t, "lit")))
 			case 0:
 				b.WriteString("// comment\n")
 			case 1:
